@@ -79,13 +79,12 @@ def gen_zone(rng, max_records=40):
             rel, ty = [], rng.choice([T_NS, T_SOA])
         else:
             ty = rng.choice([T_A, T_A, T_AAAA, T_AAAA, T_CNAME, T_TXT, T_NS, T_MX])
-        if cls == 3 and ty == T_A:
-            ty = T_TXT           # A in class CH has name-bearing RDATA: outside req_simple's domain
         owner = flip_case(rng, rel + apex, 0.25)
         if rng.random() < 0.05:      # out of the zone
             owner = rng.choice([owner[1:] if owner else ["78"], rel + ["78"], owner[:-1] + ["64"] if owner else ["64"]])
         if ty == T_A:
-            rd = rng.choice(A_POOL)
+            # class CH: <name><u16>; lower-case names only, where Rdata::equals is octet equality
+            rd = (wire(["63", "68"]) + rng.choice(["0001", "0002"])) if cls == 3 else rng.choice(A_POOL)
         elif ty == T_AAAA:
             rd = rng.choice(AAAA_POOL)
         elif ty in (T_NS, T_CNAME):
